@@ -4,6 +4,7 @@ import (
 	errorsmod "cosmossdk.io/errors"
 	assetstype "github.com/ExocoreNetwork/exocore/x/assets/types"
 	sdk "github.com/cosmos/cosmos-sdk/types"
+	sdkerrors "github.com/cosmos/cosmos-sdk/types/errors"
 )
 
 var (
@@ -88,10 +89,18 @@ func NewMsgUndelegation(assetID, fromAddress string, amountPerOperator []KeyValu
 // TODO: delegation and undelegation have the same params, try to use one single message with
 // different flag to indicate action:delegation/undelegation
 func validateDelegationInfo(assetID string, baseInfo *DelegationIncOrDecInfo) error {
+	seenOperators := make(map[string]struct{}, len(baseInfo.PerOperatorAmounts))
 	for _, kv := range baseInfo.PerOperatorAmounts {
 		if _, err := sdk.AccAddressFromBech32(kv.Key); err != nil {
 			return errorsmod.Wrap(err, "invalid operator address delegateTO")
 		}
+		// every entry of one message gets the same record key (operator, height, nonce, tx hash): a second
+		// entry for the same operator would overwrite the first undelegation record while both amounts are
+		// booked as pending
+		if _, ok := seenOperators[kv.Key]; ok {
+			return errorsmod.Wrapf(sdkerrors.ErrInvalidRequest, "operator %s is named more than once", kv.Key)
+		}
+		seenOperators[kv.Key] = struct{}{}
 		if !kv.Value.Amount.IsPositive() {
 			return ErrAmountIsNotPositive.Wrapf(
 				"amount should be positive, got %s", kv.Value.Amount.String(),
